@@ -16,7 +16,8 @@ RULE = ("every case assigns each option of DEFAULT_OPTS independently to a rando
         "harness; a model of the statement (first layer that gives the option in the order command line, environment, "
         "file, default, after the layer's documented coercion) predicts every option no implication touches; for the "
         "implied ones the statement's invariants are checked; a rejection must be explained by a conflict in the model "
-        "and a conflict must be rejected; one evaluation = one load; non-trivial = >= 3 options given in >= 2 layers; "
+        "and a conflict must be rejected; the file location itself is given in several layers, network switches also as truthy "
+        "non-booleans; one evaluation = one load; non-trivial = >= 3 options given in >= 2 layers; "
         "distinct by case hash")
 ASSUMPTIONS = [
     "values are type-correct for their option; an unparsable boolean/number in the file (which makes the client ignore the whole file) is not generated",
